@@ -39,11 +39,10 @@ func init() {
 // functions outside pkg/op that are extracted too: the call chain verifier -> oidc.CheckSignature -> KeySet.VerifySignature -> Storage.KeySet
 var c10ExtraFuncs = [][3]string{{"pkg/oidc/verifier.go", "CheckSignature", "oidc.CheckSignature"}}
 
-// handlers outside the scope of C10 (DESIGN §4.21: health / readiness are not flows): their probe loops call function values
-var c10OutOfScope = map[string]string{
-	"Readiness":          "readiness probe loop (not a flow, DESIGN §4.21)",
-	"LegacyServer.Ready": "readiness probe loop (not a flow, DESIGN §4.21)",
-}
+// handlers outside the scope of C10
+// (round 3: the readiness probe loops are representable now - loops with tracked content become tail-recursive loop functions -
+// so nothing is left out; the table stays so that an exclusion would be visible in GenC10.outOfScope)
+var c10OutOfScope = map[string]string{}
 
 type efFunc struct {
 	name, file  string
@@ -67,7 +66,9 @@ type efFunc struct {
 	sitePos     map[token.Pos]int
 	named       *ast.Object // last named result
 	sk          *efNode
-	retries     []int // bounds of the unrolled retry loops
+	retries     []int   // bounds of the unrolled retry loops
+	shareOf     *efFunc // a synthetic loop function: shares the variable and call-site tables of the function the loop is in
+	loopDesc    string
 	retrySeen   map[token.Pos]bool
 	unsup       []string
 }
@@ -82,6 +83,9 @@ type efProg struct {
 	litVar   map[*ast.Object][]*efFunc // local variable -> function literals assigned to it
 	errCtx   map[*ast.CallExpr]bool    // the call's last result is bound to an error-like variable
 	imports  map[string]bool
+	nTracked int       // number of tracked functions of the source; synthetic loop functions get the indices after them
+	synth    []*efFunc // synthetic loop functions, in index order
+	loopMemo map[string]*efFunc
 }
 
 type efCallee struct {
@@ -436,6 +440,7 @@ func (p *efProg) callGraph() {
 			n++
 		}
 	}
+	p.nTracked = n
 }
 
 // ---------------------------------------------------------------- skeleton generation
@@ -748,6 +753,19 @@ func (x *efGen) assign(lhs []ast.Expr, rhs []ast.Expr, k efK) *efNode {
 	if len(rhs) == 1 {
 		if c, ok := rhs[0].(*ast.CallExpr); ok && x.callee(c).kind != "none" {
 			return x.assignCall(lhs, c, k)
+		}
+	}
+	// `err = X().WithParent(err)` / `err = fmt.Errorf("…: %w", err)`: an error constructor applied to the variable itself keeps a
+	// non-nil value in its class (the cause stays in the chain); from nil it makes something the tree does not follow
+	if len(lhs) == 1 && len(rhs) == 1 && (x.f.kind == "err" || x.f.kind == "void" || x.f.kind == "val") {
+		if j, ok := x.trackedVar(lhs[0]); ok {
+			if i, ok2 := x.mentionsTracked(rhs[0]); ok2 && i == j && efIsErrCtor(wrapName(rhs[0])) && len(x.errTags(rhs[0])) == 0 &&
+				len(x.trackedCalls(rhs[0])) == 0 {
+				keep := efMemo(k)
+				return x.exprSteps(func() *efNode {
+					return mkIte(fmt.Sprintf(".ifErr %d", j), keep(), nd("(.kill %d %s)", j, keep().str))
+				}, nil, rhs[0])
+			}
 		}
 	}
 	rest := func() *efNode {
@@ -1154,30 +1172,34 @@ func (x *efGen) stmt(s ast.Stmt, k efK, cx efCtx) *efNode {
 			}
 		}
 		if !x.loopSafe(body) {
-			// a bounded retry `for i := 0; i < N; i++ { … }` with a constant N is unrolled: attempt 1 … attempt N, then the
-			// statements after the loop (the bound is exhausted); `continue` / the end of the body start the next attempt,
-			// `break` leaves the loop. Every other loop with tracked content is outside the language.
-			if fs, ok := v.(*ast.ForStmt); ok {
-				if n, ok := x.constBound(fs); ok {
-					if x.f.retrySeen == nil {
-						x.f.retrySeen = map[token.Pos]bool{}
-					}
-					if !x.f.retrySeen[fs.Pos()] {
-						x.f.retrySeen[fs.Pos()] = true
-						x.f.retries = append(x.f.retries, n)
-					}
-					var iter func(i int) *efNode
-					iter = func(i int) *efNode {
-						if i == n {
-							return k()
-						}
-						next := efMemo(func() *efNode { return iter(i + 1) })
-						return nd("(.attempt %d %d %s)", i+1, n, x.block(body.List, next, efCtx{brk: k, cont: next}).str)
-					}
-					return iter(0)
+			// (1) a bounded loop with a constant number N ≤ 5 of iterations (`for i := 0; i < N; i++`, `i := 1; i <= N`, a countdown,
+			// `for range N`) is unrolled: attempt 1 … attempt N, then the statements after the loop (the bound is exhausted);
+			// `continue` / the end of the body start the next attempt, `break` leaves the loop.  A retry loop must be of this form:
+			// a failure that is pending at the end of an attempt may only be followed by the same call again.
+			if n, ok := x.constBound(s); ok {
+				if x.f.retrySeen == nil {
+					x.f.retrySeen = map[token.Pos]bool{}
 				}
+				if !x.f.retrySeen[s.Pos()] {
+					x.f.retrySeen[s.Pos()] = true
+					x.f.retries = append(x.f.retries, n)
+				}
+				var iter func(i int) *efNode
+				iter = func(i int) *efNode {
+					if i == n {
+						return k()
+					}
+					next := efMemo(func() *efNode { return iter(i + 1) })
+					return nd("(.attempt %d %d %s)", i+1, n, x.block(body.List, next, efCtx{brk: k, cont: next}).str)
+				}
+				return iter(0)
 			}
-			return x.bad(s.Pos(), "loop containing tracked calls, success steps or assignments to tracked variables (not a constant-bound retry loop)")
+			// (2) every other loop (`range` over a slice / map, `for cond`, `for {}`) becomes a tail-recursive LOOP FUNCTION of the
+			// program: `loop = if * { body; loop } else { the statements after the loop … function exit }`, called in tail position.
+			// The Lean semantics runs callees along their own trees (recursion included), starts them from an arbitrary environment
+			// (the variables are havocked at every iteration) and lets no call follow a pending failure - so a loop is accepted only
+			// if no failure is pending at its back edge.
+			return x.loopFn(s, body, k)
 		}
 		// no tracked content: the body runs zero times or - as far as returns and responders go - once
 		once := x.block(body.List, k, efCtx{brk: k, cont: k})
@@ -1200,48 +1222,175 @@ func (x *efGen) stmt(s ast.Stmt, k efK, cx efCtx) *efNode {
 	return x.bad(s.Pos(), fmt.Sprintf("statement %T", s))
 }
 
-// constBound: `for i := 0; i < N; i++` with N an integer literal or a constant of pkg/op (1 ≤ N ≤ 5) and i not assigned in the body
-func (x *efGen) constBound(fs *ast.ForStmt) (int, bool) {
+// constBound: the number of iterations of a loop with a constant bound, 1 ≤ n ≤ 5:
+//
+//	for i := A; i < N; i++   for i := A; i <= N; i++   (i++ or i += 1)     n = N-A (+1)
+//	for i := N; i > A; i--   for i := N; i >= A; i--   (i-- or i -= 1)     n = N-A (+1)
+//	for range N              for i := range N
+//
+// A, N integer literals or integer constants of pkg/op; the loop variable must not be assigned in the body.
+func (x *efGen) constBound(s ast.Stmt) (int, bool) {
+	notAssigned := func(body *ast.BlockStmt, obj *ast.Object) bool {
+		assigned := false
+		ast.Inspect(body, func(m ast.Node) bool {
+			switch v := m.(type) {
+			case *ast.AssignStmt:
+				for _, l := range v.Lhs {
+					if id, ok := l.(*ast.Ident); ok && id.Obj == obj {
+						assigned = true
+					}
+				}
+			case *ast.IncDecStmt:
+				if id, ok := v.X.(*ast.Ident); ok && id.Obj == obj {
+					assigned = true
+				}
+			case *ast.UnaryExpr:
+				if id, ok := v.X.(*ast.Ident); ok && v.Op == token.AND && id.Obj == obj {
+					assigned = true
+				}
+			}
+			return !assigned
+		})
+		return !assigned
+	}
+	inRange := func(n int) (int, bool) { return n, n >= 1 && n <= 5 }
+	if rs, ok := s.(*ast.RangeStmt); ok {
+		n, ok := x.p.constInt(rs.X)
+		if !ok || rs.Value != nil {
+			return 0, false
+		}
+		if rs.Key != nil {
+			id, ok := rs.Key.(*ast.Ident)
+			if !ok || rs.Tok != token.DEFINE || (id.Obj != nil && !notAssigned(rs.Body, id.Obj)) {
+				return 0, false
+			}
+		}
+		return inRange(n)
+	}
+	fs, ok := s.(*ast.ForStmt)
+	if !ok || fs.Init == nil || fs.Cond == nil || fs.Post == nil {
+		return 0, false
+	}
 	as, ok := fs.Init.(*ast.AssignStmt)
 	if !ok || as.Tok != token.DEFINE || len(as.Lhs) != 1 || len(as.Rhs) != 1 {
 		return 0, false
 	}
 	iv, ok := as.Lhs[0].(*ast.Ident)
-	if lit, ok2 := as.Rhs[0].(*ast.BasicLit); !ok || !ok2 || lit.Value != "0" {
+	if !ok || iv.Obj == nil {
+		return 0, false
+	}
+	start, ok := x.p.constInt(as.Rhs[0])
+	if !ok {
 		return 0, false
 	}
 	cond, ok := fs.Cond.(*ast.BinaryExpr)
-	if !ok || cond.Op != token.LSS {
+	if !ok {
 		return 0, false
 	}
-	if l, ok := cond.X.(*ast.Ident); !ok || l.Name != iv.Name {
+	if l, ok := cond.X.(*ast.Ident); !ok || l.Obj != iv.Obj {
 		return 0, false
 	}
-	post, ok := fs.Post.(*ast.IncDecStmt)
-	if !ok || post.Tok != token.INC || exprString(post.X) != iv.Name {
+	lim, ok := x.p.constInt(cond.Y)
+	if !ok {
 		return 0, false
 	}
-	n, ok := x.p.constInt(cond.Y)
-	if !ok || n < 1 || n > 5 {
-		return 0, false
-	}
-	assigned := false
-	ast.Inspect(fs.Body, func(m ast.Node) bool {
-		switch v := m.(type) {
-		case *ast.AssignStmt:
-			for _, l := range v.Lhs {
-				if id, ok := l.(*ast.Ident); ok && id.Obj == iv.Obj {
-					assigned = true
-				}
-			}
-		case *ast.IncDecStmt:
-			if id, ok := v.X.(*ast.Ident); ok && id.Obj == iv.Obj {
-				assigned = true
+	step := 0
+	switch post := fs.Post.(type) {
+	case *ast.IncDecStmt:
+		if id, ok := post.X.(*ast.Ident); ok && id.Obj == iv.Obj {
+			if post.Tok == token.INC {
+				step = 1
+			} else {
+				step = -1
 			}
 		}
-		return !assigned
-	})
-	return n, !assigned
+	case *ast.AssignStmt:
+		if len(post.Lhs) == 1 && len(post.Rhs) == 1 {
+			if id, ok := post.Lhs[0].(*ast.Ident); ok && id.Obj == iv.Obj {
+				if one, ok := x.p.constInt(post.Rhs[0]); ok && one == 1 {
+					switch post.Tok {
+					case token.ADD_ASSIGN:
+						step = 1
+					case token.SUB_ASSIGN:
+						step = -1
+					}
+				}
+			}
+		}
+	}
+	n := -1
+	switch {
+	case step == 1 && cond.Op == token.LSS:
+		n = lim - start
+	case step == 1 && cond.Op == token.LEQ:
+		n = lim - start + 1
+	case step == -1 && cond.Op == token.GTR:
+		n = start - lim
+	case step == -1 && cond.Op == token.GEQ:
+		n = start - lim + 1
+	}
+	if n < 0 || !notAssigned(fs.Body, iv.Obj) {
+		return 0, false
+	}
+	return inRange(n)
+}
+
+// loopFn: the loop as a tail-recursive function of the program (see stmt); k = the statements after the loop up to the function exit
+func (x *efGen) loopFn(s ast.Stmt, body *ast.BlockStmt, k efK) *efNode {
+	p := x.p
+	var init, post ast.Stmt
+	if fs, ok := s.(*ast.ForStmt); ok {
+		init, post = fs.Init, fs.Post
+	}
+	tail := func(L *efFunc, site int) *efNode {
+		tv := x.discard()
+		retN := "(.ret .nil)"
+		if x.f.kind == "err" || x.f.kind == "bool" {
+			retN = fmt.Sprintf("(.ret (.var %d [] \"\"))", tv)
+		}
+		return nd("(.call %d (.op [%d]) %d %s)", site, L.idx, tv, retN)
+	}
+	newSite := func(name string) int {
+		x.f.sites = append(x.f.sites, name)
+		return len(x.f.sites) - 1
+	}
+	exit := k()
+	if p.loopMemo == nil {
+		p.loopMemo = map[string]*efFunc{}
+	}
+	owner := x.f
+	key := fmt.Sprintf("%s@%d@%s", owner.name, s.Pos(), exit.str)
+	L := p.loopMemo[key]
+	if L == nil {
+		nLoops := 0
+		for _, q := range p.synth {
+			if q.shareOf == owner {
+				nLoops++
+			}
+		}
+		L = &efFunc{name: fmt.Sprintf("%s.loop%d", owner.name, nLoops+1), file: owner.file, kind: owner.kind, handler: owner.handler, tracked: true,
+			idx: p.nTracked + len(p.synth), shareOf: owner, loopDesc: fmt.Sprintf("%T at %s", s, p.g.fset.Position(s.Pos()))}
+		p.synth = append(p.synth, L)
+		p.loopMemo[key] = L
+		back := newSite(L.name)
+		backEdge := efMemo(func() *efNode {
+			return x.stmt(post, func() *efNode { return tail(L, back) }, efCtx{})
+		})
+		once := x.block(body.List, backEdge, efCtx{brk: k, cont: backEdge})
+		// the range variables are fresh in every iteration
+		if rs, ok := s.(*ast.RangeStmt); ok {
+			for _, e := range []ast.Expr{rs.Key, rs.Value} {
+				if e != nil {
+					if j, ok := x.trackedVar(e); ok {
+						once = nd("(.kill %d %s)", j, once.str)
+					}
+				}
+			}
+		}
+		L.sk = mkIte(".ite", once, exit)
+	}
+	entry := newSite(L.name)
+	return x.stmt(init, func() *efNode { return tail(L, entry) }, efCtx{})
 }
 
 // constInt: an integer literal, or an identifier declared as an integer constant in pkg/op
@@ -1294,6 +1443,7 @@ func (x *efGen) switchLike(init ast.Stmt, tag ast.Node, body *ast.BlockStmt, k e
 	inner := efCtx{brk: k, cont: cx.cont}
 	gen := efMemo(func() *efNode {
 		var cases []efK
+		var caseConds [][]ast.Expr
 		var def efK
 		var conds []ast.Node
 		if tag != nil && !isNilNode(tag) {
@@ -1317,6 +1467,7 @@ func (x *efGen) switchLike(init ast.Stmt, tag ast.Node, body *ast.BlockStmt, k e
 			for _, e := range cc.List {
 				conds = append(conds, e)
 			}
+			caseConds = append(caseConds, cc.List)
 			cases = append(cases, bodyK)
 		}
 		tail := k
@@ -1324,8 +1475,28 @@ func (x *efGen) switchLike(init ast.Stmt, tag ast.Node, body *ast.BlockStmt, k e
 			tail = def
 		}
 		chain := tail()
-		for i := len(cases) - 1; i >= 0; i-- {
-			chain = mkIte(".ite", cases[i](), chain)
+		_, isTypeSwitch := tag.(*ast.AssignStmt)
+		if es, ok := tag.(*ast.ExprStmt); ok && es != nil {
+			_, isTypeSwitch = es.X.(*ast.TypeAssertExpr)
+		}
+		if (tag == nil || isNilNode(tag)) && !isTypeSwitch && len(caseConds) == len(cases) {
+			// a tagless switch is an if-chain: `switch { case err != nil: … default: … }`
+			for i := len(cases) - 1; i >= 0; i-- {
+				next := chain
+				var e ast.Expr
+				for _, c := range caseConds[i] {
+					if e == nil {
+						e = c
+					} else {
+						e = &ast.BinaryExpr{X: e, Op: token.LOR, Y: c}
+					}
+				}
+				chain = x.cond(e, cases[i], func() *efNode { return next })
+			}
+		} else {
+			for i := len(cases) - 1; i >= 0; i-- {
+				chain = mkIte(".ite", cases[i](), chain)
+			}
 		}
 		final := chain
 		return x.exprSteps(func() *efNode { return final }, nil, conds...)
@@ -1382,7 +1553,26 @@ func c10Facts(g *genCtx) string {
 		facts = append(facts, map[string]any{"name": f.name, "file": f.file, "kind": f.kind, "handler": f.handler, "sites": f.sites, "size": len(f.sk.str)})
 		nSites += len(f.sites)
 	}
+	var loopRows []string
+	for _, L := range p.synth {
+		o := L.shareOf
+		id := "sk_" + sanitizeIdent(L.name)
+		fmt.Fprintf(&b, "/-- `%s`: loop function of `%s` (%s); variables and call sites are those of `%s` -/\ndef %s : C10.Flow.Sk :=\n  %s\n", L.name, o.name, L.loopDesc, o.name, id, L.sk.str)
+		rows = append(rows, fmt.Sprintf("{ name := %s, file := %s, kind := .%s, handler := %s, nvars := %d, sites := %s, sk := %s }",
+			leanStr(L.name), leanStr(L.file), L.kind, leanBool(L.handler), len(o.vars), leanStrList(o.sites), id))
+		facts = append(facts, map[string]any{"name": L.name, "file": L.file, "kind": L.kind, "handler": L.handler, "sites": o.sites, "size": len(L.sk.str), "loopOf": o.name})
+		loopRows = append(loopRows, "("+leanStr(L.name)+", "+leanStr(o.name)+")")
+	}
 	b.WriteString("\ndef fns : List C10.Flow.Fn := [\n  " + strings.Join(rows, ",\n  ") + "]\n\n")
+	b.WriteString("/-- loops with tracked content that are not constant-bound: (loop function, function the loop is in) -/\ndef loopFns : List (String × String) := [" + strings.Join(loopRows, ", ") + "]\n\n")
+	g.facts["C10.loopFns"] = loopRows
+	ifc := c10StorageInterface(g)
+	var ifcRows []string
+	for _, m := range ifc {
+		ifcRows = append(ifcRows, "("+leanStr(m[0])+", "+leanStr(m[1])+")")
+	}
+	b.WriteString("/-- the methods of the storage interfaces of pkg/op that can report an error (interface, method), from the interface declarations -/\ndef storageInterface : List (String × String) := [" + strings.Join(ifcRows, ", ") + "]\n\n")
+	g.facts["C10.storageInterface"] = ifcRows
 	var oos []string
 	keys := make([]string, 0, len(c10OutOfScope))
 	for k := range c10OutOfScope {
@@ -1406,4 +1596,58 @@ func c10Facts(g *genCtx) string {
 	g.facts["C10.flowFunctions"] = facts
 	g.facts["C10.flowSites"] = nSites
 	return b.String()
+}
+
+// c10StorageInterface: (interface, method) for every method with an error (or ok) result of the interface types pkg/op declares for
+// the pluggable storage: all interfaces of storage.go, and every interface elsewhere in pkg/op whose name contains "Storage" or
+// that a storage.go interface embeds by name (KeyProvider …)
+func c10StorageInterface(g *genCtx) [][2]string {
+	var out [][2]string
+	seen := map[string]bool{}
+	for _, rel := range c09GoFiles("pkg/op") {
+		af := g.file(rel)
+		if af == nil {
+			continue
+		}
+		for _, d := range af.Decls {
+			gd, ok := d.(*ast.GenDecl)
+			if !ok || gd.Tok != token.TYPE {
+				continue
+			}
+			for _, sp := range gd.Specs {
+				ts, ok := sp.(*ast.TypeSpec)
+				if !ok {
+					continue
+				}
+				it, ok := ts.Type.(*ast.InterfaceType)
+				if !ok || it.Methods == nil {
+					continue
+				}
+				if !(strings.HasSuffix(rel, "/storage.go") || strings.Contains(ts.Name.Name, "Storage") || ts.Name.Name == "KeyProvider") {
+					continue
+				}
+				for _, m := range it.Methods.List {
+					ft, ok := m.Type.(*ast.FuncType)
+					if !ok || len(m.Names) == 0 {
+						continue
+					}
+					if k := efKindOf(ft); k != "err" && k != "bool" {
+						// RevokeToken reports its failure as *oidc.Error
+						if ft.Results == nil || len(ft.Results.List) == 0 || exprString(ft.Results.List[len(ft.Results.List)-1].Type) != "*oidc.Error" {
+							continue
+						}
+					}
+					for _, nm := range m.Names {
+						key := ts.Name.Name + "." + nm.Name
+						if !seen[key] {
+							seen[key] = true
+							out = append(out, [2]string{ts.Name.Name, nm.Name})
+						}
+					}
+				}
+			}
+		}
+	}
+	sort.Slice(out, func(i, j int) bool { return out[i][0]+"."+out[i][1] < out[j][0]+"."+out[j][1] })
+	return out
 }
